@@ -579,7 +579,7 @@ def r2(ctx: Ctx, rep: Report):
                       bad="%s.%s no longer decodes through _map_response" % (famname, mname))
 
 
-def _key_known_present(window) -> bool:
+def _key_known_present(window, containers=None) -> bool:
     """A test on this stretch of the path established that the result already holds an entry for the item
     (``result.get(k) is None`` false, ``k in result`` true): not storing again leaves the id reported."""
     for ev in window:
@@ -590,11 +590,13 @@ def _key_known_present(window) -> bool:
             node, val = node.operand, not val
         if isinstance(node, ast.Compare) and len(node.ops) == 1:
             op, l, r = node.ops[0], node.left, node.comparators[0]
-            is_get = isinstance(l, ast.Call) and isinstance(l.func, ast.Attribute) and l.func.attr == "get" and len(l.args) == 1
+            is_get = isinstance(l, ast.Call) and isinstance(l.func, ast.Attribute) and l.func.attr == "get" and len(l.args) == 1 \
+                and (containers is None or norm(l.func.value) in containers)
             if is_get and isinstance(r, ast.Constant) and r.value is None and \
                     ((isinstance(op, (ast.Is, ast.Eq)) and not val) or (isinstance(op, (ast.IsNot, ast.NotEq)) and val)):
                 return True
-            if (isinstance(op, ast.In) and val) or (isinstance(op, ast.NotIn) and not val):
+            # ... membership in the result itself (not in some other collection, e.g. a set of ids already logged)
+            if ((isinstance(op, ast.In) and val) or (isinstance(op, ast.NotIn) and not val)) and (containers is None or norm(r) in containers):
                 return True
     return False
 
@@ -661,7 +663,9 @@ def _isolating_loop(prog, fn, call_name: str, must_catch, res=None, last_wins: b
             if rp is None:
                 rp = Replay(prog, fn, p)
             is_none = [rp.sym_at(i).lin(st.value).single_term() == ("const", "None") for i, st in stores]
-            present = not last_wins and not stores and _key_known_present(window)
+            containers = {norm(n.targets[0].value) for n in ast.walk(fn.node) if isinstance(n, ast.Assign) and isinstance(n.targets[0], ast.Subscript)} | \
+                {norm(n.value) for n in ast.walk(fn.node) if isinstance(n, ast.Return) and isinstance(n.value, ast.Name)}
+            present = not last_wins and not stores and _key_known_present(window, containers)
             if failed:
                 seen_fail += 1
                 exc = prog.exc_name(failed[0].data)
